@@ -24,7 +24,8 @@ from asyncssh.config import SSHClientConfig, SSHServerConfig
 from harness.drivers.trust_files import records, S          # noqa: F401
 
 LOCAL_USER = pwd.getpwuid(os.getuid()).pw_name
-ENV = {'CFGV': 'ev'}
+ENV = {'CFGV': 'ev', 'KEYP': '/v/%h', 'PCT': '100%/t', 'DBL': 'a%%b',
+       'NEST': '${CFGV}', 'DOL': 'a$b'}
 
 
 def setup_env():
@@ -208,6 +209,22 @@ def typed_out(cfg):
     return out
 
 
+XNAMES = ('CertificateFile', 'IdentityAgent', 'ForwardAgent', 'RemoteCommand',
+          'ProxyCommand')
+
+
+def tx_out(cfg):
+    """The expanded options (besides IdentityFile) as name -> list of values."""
+    out = {}
+    for name in XNAMES:
+        v = cfg.get(name)
+        if isinstance(v, str):
+            out[name] = [v]
+        elif isinstance(v, list):
+            out[name] = list(v)
+    return out
+
+
 def _ukh(cfg):
     ukh = cfg.get('UserKnownHostsFile')
     return ['-'] if ukh is None else (list(ukh) or ['@EMPTY@'])
@@ -219,7 +236,7 @@ def _cfg_out(cfg, host):
             str(cfg.get('User') or LOCAL_USER),
             list(cfg.get('IdentityFile', []) or []),
             list(cfg.get('SendEnv', []) or []),
-            _ukh(cfg), cfg.get('Tag') or '', typed_out(cfg), []]
+            _ukh(cfg), cfg.get('Tag') or '', typed_out(cfg), [], tx_out(cfg)]
 
 
 def cli_first(world, target):
@@ -339,7 +356,8 @@ class Connector:
         return [str(o.host), str(o.port), str(o.username),
                 list(c.get('IdentityFile', []) or []),
                 list(c.get('SendEnv', []) or []),
-                _ukh(c), c.get('Tag') or '', typed_out(c), world.exec_log()]
+                _ukh(c), c.get('Tag') or '', typed_out(c), world.exec_log(),
+                tx_out(c)]
 
 
 def pred_typed(t):
@@ -347,12 +365,46 @@ def pred_typed(t):
 
 
 def pred_out(pred):
-    host, port, user, idf, env, ukh, tag, typed, ex = pred
+    host, port, user, idf, env, ukh, tag, typed, ex, tx = pred
     if val(host) == '@CANONERR@':
         return ['@CANONERR@']
     return [val(host), val(port), val(user), [val(x) for x in idf],
             [val(x) for x in env], [val(x) for x in ukh] or ['-'], val(tag),
-            pred_typed(typed), list(ex)]
+            pred_typed(typed), list(ex),
+            {n: [val(x) for x in vals] for n, vals in tx if vals}]
+
+
+CONFIGERR = ['@CONFIGERR@']
+
+
+def pred_final(pred, is_exp):
+    """A prediction in comparable form; a value that cannot be expanded
+    (unknown token / variable) stands for "loading fails"."""
+    out = for_exp(norm(pred_out(pred)), is_exp)
+    if len(out) >= 10 and ('@ERR@' in ''.join(out[3]) or
+                           any('@ERR@' in ''.join(v) for v in out[9].values())):
+        return CONFIGERR
+    return out
+
+
+def obs_final(out, is_exp):
+    if isinstance(out, tuple) and out[1] == 'ConfigParseError':
+        return CONFIGERR
+    return for_exp(norm(out), is_exp) if isinstance(out, list) else out
+
+
+def for_exp(out, is_exp):
+    """In expansion programs CertificateFile / IdentityAgent / ForwardAgent
+    are judged as expanded text (last element), otherwise as typed values."""
+    if not isinstance(out, list) or len(out) < 10:
+        return out
+    out = list(out)
+    if is_exp:
+        out[7] = {n: v for n, v in out[7].items() if n not in XNAMES}
+        out[9] = {n: v for n, v in out[9].items() if v}
+    else:
+        out[9] = {}
+    return out
 
 
 def dedup(seq):
@@ -366,12 +418,12 @@ def dedup(seq):
 def norm(out):
     """List options are compared up to repetition (ssh drops repeated
     IdentityFile entries, and repeats SendEnv in its second pass)."""
-    if not isinstance(out, list) or len(out) < 9:
+    if not isinstance(out, list) or len(out) < 10:
         return out
     typed = {n: (['l'] + dedup(v[1:]) if v and v[0] == 'l' else v)
              for n, v in out[7].items()}
     return [out[0], out[1], out[2], dedup(out[3]), dedup(out[4]), out[5],
-            out[6], typed, out[8]]
+            out[6], typed, out[8], out[9]]
 
 
 # ---- second opinion ----
@@ -416,10 +468,20 @@ def ssh_G(world, target, tag):
     idf = [expand(v) for v in d['identityfile']
            if not v.startswith('~/.ssh/id_') and v.lower() != 'none']
     ukh = d.get('userknownhostsfile', '').split()
+    tx = {}
+    certs = [expand(c) for c in raw.get('certificatefile', [])
+             if c.lower() != 'none']
+    if certs:
+        tx['CertificateFile'] = dedup(certs)
+    # ssh -G prints these two already expanded (by ssh's own single pass)
+    if raw.get('identityagent', ['none'])[0] != 'none':
+        tx['IdentityAgent'] = [raw['identityagent'][0]]
+    if raw.get('forwardagent', ['no'])[0] not in ('yes', 'no'):
+        tx['ForwardAgent'] = [raw['forwardagent'][0]]
     return [d.get('hostname', host), d.get('port', '22'),
             d.get('user', LOCAL_USER), dedup(idf), dedup(d['sendenv']),
             ['@EMPTY@'] if ukh == ['none'] else ukh, '', ssh_typed(raw),
-            world.exec_log()]
+            world.exec_log(), tx]
 
 
 _UNITS = {'k': 1024, 'm': 1024 ** 2, 'g': 1024 ** 3,
@@ -489,7 +551,7 @@ def typed_for_ssh(name, v):
     return v
 
 
-def ssh_applicable(menu, prog, target):
+def ssh_applicable(menu, prog, target, is_exp=False):
     crits = menu.crits(prog)
     names = menu.names(prog)
     if target[2] != 'plain':
@@ -498,6 +560,8 @@ def ssh_applicable(menu, prog, target):
         return False                 # OpenSSH 9.2 has no Tag / Match tagged
     if 'CanonicalDomains' in names:
         return False                 # ssh -G cannot resolve names here
+    if is_exp and names & {'RemoteCommand', 'ProxyCommand'}:
+        return False                 # ssh expands no ${} in them
     if 'final' in crits and 'canonical' in crits:
         return False                 # ssh treats "canonical" as "final pass"
     return True
@@ -512,7 +576,12 @@ def ssh_agrees(sshout, expected, ukh_set, names=()):
     if ukh_set:
         ok = ok and sshout[5] == e[5]
     ok = ok and sshout[8] == e[8]       # "Match exec" commands run
+    for name in ('CertificateFile', 'IdentityAgent', 'ForwardAgent'):
+        if name in e[9]:                # judged as expanded text
+            ok = ok and sshout[9].get(name) == dedup(e[9][name])
     for name in names:
+        if name in e[9]:
+            continue                    # judged above, as expanded text
         if name in sshout[7]:
             want = typed_for_ssh(name, e[7].get(name))
             got = sshout[7][name]
@@ -599,9 +668,10 @@ def srv_reload(world, user):
 
 
 def inside(base, path):
-    """The path stays below `base` under POSIX and Windows reading, with
-    ~ and ${} given their meaning."""
-    if path.startswith('~') or _env.search(path):
+    """The path stays below `base` under POSIX and Windows reading, with ~
+    given its meaning (a literal ${...} left in a value is not expanded by
+    anything that opens the file)."""
+    if path.startswith('~'):
         return False
     for mod, b in ((posixpath, base), (ntpath, base)):
         n = mod.normpath(path)
